@@ -240,7 +240,7 @@ impl Debugger {
                     // Instruction which is about to be executed (PC may have been changed by a
                     // command since `instr` was read above)
                     match SignificantInstr::try_from(state.mem(state.pc())) {
-                        Ok(SignificantInstr::Call) => *depth += 1,
+                        Ok(SignificantInstr::Call) => *depth = depth.saturating_add(1),
                         Ok(SignificantInstr::Return) => *depth = depth.saturating_sub(1),
                         _ => (),
                     }
